@@ -25,6 +25,7 @@ import (
 	"sort"
 	"strings"
 	"sync"
+	"syscall"
 
 	"github.com/fsnotify/fsnotify"
 	oci "github.com/opencontainers/runtime-spec/specs-go"
@@ -45,6 +46,9 @@ type Cache struct {
 
 	autoRefresh bool
 	watch       *watch
+	// rescan is set when the last scan ran out of file descriptors: what it
+	// could not read is read again by the next query
+	rescan bool
 }
 
 // WithAutoRefresh returns an option to control automatic Cache refresh.
@@ -146,6 +150,7 @@ func (c *Cache) refresh() error {
 		devices    = map[string]*Device{}
 		conflicts  = map[string]struct{}{}
 		specErrors = map[string][]error{}
+		shortage   = false
 	)
 
 	// collect errors per spec file path and once globally
@@ -175,6 +180,9 @@ func (c *Cache) refresh() error {
 	_ = scanSpecDirs(c.specDirs, func(path string, priority int, spec *Spec, err error) error {
 		path = filepath.Clean(path)
 		if err != nil {
+			if errors.Is(err, syscall.EMFILE) || errors.Is(err, syscall.ENFILE) {
+				shortage = true
+			}
 			collectError(fmt.Errorf("failed to load CDI Spec %w", err), path)
 			return nil
 		}
@@ -203,6 +211,7 @@ func (c *Cache) refresh() error {
 	c.specs = specs
 	c.devices = devices
 	c.errors = specErrors
+	c.rescan = shortage
 
 	errs := []error{}
 	for _, specErrs := range specErrors {
@@ -216,7 +225,8 @@ func (c *Cache) refreshIfRequired(force bool) (bool, error) {
 	// We need to refresh if
 	// - it's forced by an explicit call to Refresh() in manual mode
 	// - a missing Spec dir appears (added to watch) in auto-refresh mode
-	if force || (c.autoRefresh && c.watch.update(c.dirErrors)) {
+	// - the last scan ran out of file descriptors, in auto-refresh mode
+	if force || (c.autoRefresh && (c.watch.update(c.dirErrors) || c.rescan)) {
 		return true, c.refresh()
 	}
 	return false, nil
